@@ -277,12 +277,25 @@ def step (_ : Unit) (w : List String) : Unit × String :=
       match vals.mapM (parseSrc src) with
       | some xs =>
         if xs.length = 1 ∨ xs.length = 2 then
-          let cv (x : Src) : Res String := match valueConvert src .f x true with
-            | .ok (some o, _) => .ok (outText .f o)
-            | .ok (none, _) => .fault
-            | .err e => .err e
-            | .null => .null | .oob => .oob | .fault => .fault
-          let m : Res (List String) := xs.mapM cv
+          -- coordinate k is consumed with the k-th generated target code; anything but a direct 'f' store is followed
+          -- by a plain C assignment to the float member (rounds, may overflow to infinity)
+          let cv (k : Nat) (x : Src) : Res String :=
+            match Generated.fpointConsume[k]? with
+            | some (code, direct) =>
+              match Ty.ofCode code with
+              | some via =>
+                match valueConvert src via x true with
+                | .ok (some o, _) =>
+                  if via = .f ∧ direct then .ok (outText .f o)
+                  else match o with
+                    | .flt y => .ok (outText .f (.flt (round binary32 y)))
+                    | .int _ => .fault
+                | .ok (none, _) => .fault
+                | .err e => .err e
+                | .null => .null | .oob => .oob | .fault => .fault
+              | none => .err .BadType
+            | none => .fault
+          let m : Res (List String) := (xs.zipIdx.mapM fun (x, k) => cv k x)
           let spec : Option (List String) := xs.mapM (expected src .f)
           let line (l : List String) : String := match l with
             | [a] => s!"ok n=1 x={a} y={a}"
